@@ -6,7 +6,11 @@ import re
 from harness import cm
 
 T = "urn:T"
+import pathlib
+X = "urn:X"
+X_LOC = (pathlib.Path(__file__).parent / "res" / "x_known.xsd").as_uri()
 XSD = (f'<xs:schema xmlns:xs="{cm.XS}" targetNamespace="{T}" xmlns:t="{T}" elementFormDefault="qualified">'
+       f'<xs:import namespace="{X}" schemaLocation="{X_LOC}"/>'
        '<xs:element name="lib"><xs:complexType><xs:sequence>'
        '<xs:element name="item" type="t:item" maxOccurs="unbounded"/></xs:sequence></xs:complexType></xs:element>'
        '<xs:complexType name="item"><xs:sequence>'
@@ -14,11 +18,16 @@ XSD = (f'<xs:schema xmlns:xs="{cm.XS}" targetNamespace="{T}" xmlns:t="{T}" eleme
        '<xs:element name="note" type="xs:string" minOccurs="0"/>'
        '<xs:element name="sub" minOccurs="0"><xs:complexType><xs:sequence>'
        '<xs:element name="qty" type="xs:decimal" maxOccurs="unbounded"/></xs:sequence></xs:complexType>'
-       '</xs:element></xs:sequence>'
+       '</xs:element>'
+       '<xs:any namespace="##other" processContents="strict" minOccurs="0" maxOccurs="2"/></xs:sequence>'
        '<xs:attribute name="id" type="xs:int" use="required"/><xs:attribute name="flag" type="xs:boolean"/>'
-       '</xs:complexType></xs:schema>')
+       '</xs:complexType>'
+       # global declarations that share their names with the LOCAL note / qty but not their types: they govern
+       # nothing inside lib (spec/Validator.tla: the governing declaration is the local one)
+       '<xs:element name="note" type="xs:int"/><xs:element name="qty" type="xs:boolean"/>'
+       '</xs:schema>')
 
-TEXT = {"title": {"ok": "abc"}, "qty": {"ok": "5", "bad": "x"}, "note": {"ok": "n"}}
+TEXT = {"ext": {"ok": "e"}, "title": {"ok": "abc"}, "qty": {"ok": "5", "bad": "x"}, "note": {"ok": "n"}}
 ATTR = {"id": {"ok": "7", "bad": "x"}, "flag": {"ok": "true", "bad": "maybe"}, "bogus": {"ok": "1"}}
 
 
@@ -30,10 +39,10 @@ def render(nodes, prefix="t", default_ns=False):
         depth = len(n["path"])
         while len(stack) > depth:
             out.append(f"</{stack.pop()}>")
-        tag = pfx + n["name"]
+        tag = {"ext": "x:known", "unk": "x:unk"}.get(n["name"]) or pfx + n["name"]
         at = "".join(f' {a}="{ATTR[a][v]}"' for a, v in sorted(map(tuple, n["attrs"])))
         if depth == 0:
-            at = (f' xmlns="{T}"' if default_ns else f' xmlns:{prefix}="{T}"') + at
+            at = (f' xmlns="{T}"' if default_ns else f' xmlns:{prefix}="{T}"') + f' xmlns:x="{X}"' + at
         out.append(f"<{tag}{at}>")
         stack.append(tag)
         if n["text"] == "stray":
